@@ -31,6 +31,9 @@ class Crate:
         self.adts = {a["path"]: a for a in d["adts"]}
         self.impls = d["impls"]
         self._annotate()
+        for b in self.bodies.values():
+            if "body" in b:
+                lower_while_next(b["body"])
 
     def _annotate(self):
         """resolve interned type indices to strings in place (ty, adj, owner, gen)"""
@@ -411,3 +414,80 @@ def pp(n, ind=0, maxd=40):
     if k in ("DropTemps", "Use", "TypeAscr", "Repeat", "Yield", "Become"):
         return pp(n["e"], ind, maxd)
     return sp + "<" + str(k) + ">"
+
+
+def lower_while_next(root):
+    """`let mut it = XS[.peekable()]; while let Some(p) = it.next() { B }`, where `it` is otherwise used only as `it.peek()` inside B,
+    is rewritten in place into the shape of the loop `for p in XS { B }` (the desugared form every rule already understands), with
+    `it.peek()` standing for "the element after this one": the call `loop::peek_next(XS)`. The `let` of the iterator goes away."""
+    def local_uses(lid):
+        return [n for n in walk(root) if n.get("k") == "Path" and n.get("r") == "local" and n.get("id") == lid]
+    changed = False
+    for blk in [n for n in walk(root) if n.get("k") == "Block"]:
+        b = blk["b"]
+        slots = [("stmt", i) for i in range(len(b["stmts"]))] + ([("expr", None)] if "expr" in b else [])
+        for kind, i in slots:
+            holder = b["stmts"][i] if kind == "stmt" else None
+            if kind == "stmt" and holder.get("k") not in ("SExpr", "SSemi"):
+                continue
+            lp = strip(holder["e"] if kind == "stmt" else b["expr"])
+            if not (isinstance(lp, dict) and lp.get("k") == "Loop" and lp.get("src") == "While" and not lp["body"].get("stmts")):
+                continue
+            iff = strip(lp["body"].get("expr"))
+            if not (isinstance(iff, dict) and iff.get("k") == "If" and strip(iff["cond"]).get("k") == "Let" and "else" in iff):
+                continue
+            let = strip(iff["cond"])
+            pat, init = let["pat"], strip(let["init"])
+            if not (pat.get("k") == "PTupleStruct" and str(pat.get("path", "")).endswith("::Some") and len(pat.get("ps", [])) == 1):
+                continue
+            if not (init.get("k") == "MethodCall" and init.get("callee") == "std::iter::Iterator::next" and not init["args"]):
+                continue
+            recv = strip(init["recv"])
+            if not (recv.get("k") == "Path" and recv.get("r") == "local"):
+                continue
+            lid = recv["id"]
+            els = strip(iff["else"])
+            eb = els.get("b", {}) if els.get("k") == "Block" else {}
+            tail = [st.get("e") for st in eb.get("stmts", [])] + ([eb["expr"]] if "expr" in eb else [])
+            if len(tail) != 1 or strip(tail[0]).get("k") != "Break" or "e" in strip(tail[0]) or "label" in strip(tail[0]):
+                continue
+            lets = [j for j, st in enumerate(b["stmts"]) if st.get("k") == "SLet" and "init" in st and "els" not in st
+                    and st["pat"].get("k") == "Bind" and st["pat"].get("id") == lid and (kind == "expr" or j < i)]
+            if len(lets) != 1:
+                continue
+            src = b["stmts"][lets[0]]["init"]
+            s0 = strip(src)
+            if s0.get("k") == "MethodCall" and str(s0.get("callee", "")).endswith("Iterator::peekable"):
+                src = s0["recv"]
+            # every other use of the iterator is `it.peek()` inside the loop body
+            peeks = [n for n in walk(iff["then"]) if n.get("k") == "MethodCall" and re.search(r"Peekable(::<[^>]*>)?::peek$", str(n.get("callee", "")))
+                     and strip(n["recv"]).get("k") == "Path" and strip(n["recv"]).get("id") == lid]
+            if len(local_uses(lid)) != 1 + len(peeks):
+                continue
+            for pk in peeks:
+                keep = {k: pk[k] for k in ("ty", "sp", "adj") if k in pk}
+                pk.clear()
+                pk.update(keep)
+                pk.update({"k": "Call", "callee": "core::iter::loop::peek_next", "dk": "Fn", "args": [src]})
+            sp = lp.get("sp", "")
+            it_ty = src.get("ty", "")
+            some_pat = {"k": "PStruct", "r": "def", "dk": "Variant", "path": pat["path"], "fields": [{"name": "0", "p": pat["ps"][0]}], "rest": False, "ty": init.get("ty", "")}
+            none_pat = {"k": "PStruct", "r": "def", "dk": "Variant", "path": pat["path"].rsplit("::", 1)[0] + "::None", "fields": [], "rest": False, "ty": init.get("ty", "")}
+            inner = {"k": "Match", "src": "ForLoopDesugar", "ty": "()", "sp": sp,
+                     "scrut": {"k": "Call", "callee": "std::iter::Iterator::next", "dk": "AssocFn", "ty": init.get("ty", ""), "sp": sp,
+                               "args": [{"k": "AddrOf", "mut": True, "ty": "&mut " + it_ty, "sp": sp,
+                                         "e": {"k": "Path", "r": "local", "id": lid, "name": "iter", "ty": it_ty, "sp": sp}}]},
+                     "arms": [{"pat": none_pat, "body": {"k": "Break", "ty": "!", "sp": sp}}, {"pat": some_pat, "body": iff["then"]}]}
+            new = {"k": "Match", "src": "ForLoopDesugar", "ty": "()", "sp": sp, "lowered": "while-next",
+                   "scrut": {"k": "Call", "callee": "std::iter::IntoIterator::into_iter", "dk": "AssocFn", "args": [src], "ty": it_ty, "sp": src.get("sp", sp)},
+                   "arms": [{"pat": {"k": "Bind", "id": lid, "name": "iter", "mode": "BindingMode(No, Mut)", "mut": True, "byref": False, "ty": it_ty},
+                             "body": {"k": "Loop", "src": "ForLoop", "ty": "()", "sp": sp, "body": {"stmts": [{"k": "SExpr", "e": inner}]}}}]}
+            if kind == "stmt":
+                holder["e"] = new
+            else:
+                b["expr"] = new
+            del b["stmts"][lets[0]]
+            changed = True
+            break       # statement indices moved: one loop per block per pass
+    if changed:
+        lower_while_next(root)
